@@ -320,6 +320,20 @@ def dec_case1(m):
     return {"tr": t, "guard": bool(g), "py": W.dec_res(py), "c": c, "small": bool(small)}
 
 
+def vrel_model(pyv, cv):
+    """vrel of coq/Lang/ToC.v on decoded wire values (what C01_expr_preserve_partial promises inside the guard)"""
+    tag, payload = cv[0], cv[1]
+    if tag == 0:
+        return (isinstance(pyv, bool) and payload == int(pyv)) or (isinstance(pyv, int) and not isinstance(pyv, bool) and payload == pyv)
+    if tag == 1:
+        return isinstance(pyv, bool) and bool(payload) == pyv
+    if tag == 2:
+        return isinstance(pyv, Fraction) and Fraction(payload[0], payload[1]) == pyv
+    if tag in (3, 4):
+        return isinstance(pyv, str) and C.wstr(payload) == pyv
+    return False
+
+
 def my_findings(ctx):
     """the listed findings of this unit: entries of known_findings.json with this unit's ids, plus the unit's own
     known_findings.d/C01_expr.json (the source the merged file is assembled from), by id"""
@@ -419,6 +433,9 @@ def run_unit(ctx: C.Ctx):
             if d["c"][0] != "ok":
                 mstat["guard_but_no_value"] += 1
                 ctx.disagree("model: inside expr_guard with a Python value but ceval has none (contradicts C01_expr_preserve_partial)", it[:3], d["c"], None)
+            elif not vrel_model(d["py"][1], d["c"][1]):
+                mstat["guard_but_unrelated"] = mstat.get("guard_but_unrelated", 0) + 1
+                ctx.disagree("model: inside expr_guard but the C value is not vrel-related to the Python value (contradicts C01_expr_preserve_partial)", it[:3], d["py"], d["c"])
         if d["tr"][0] == "ok" and d["py"][0] == "ok" and d["c"][0] == "ok":
             runnable.append(it)
     dist["model_eval"] = mstat
